@@ -118,6 +118,11 @@ func (t *mixedTable) next(k Value) (next Value, v Value, ok bool) {
 		isInt = true
 	} else {
 		i, isInt = ToIntNoString(k)
+		if isInt && i <= 0 {
+			// Only positive integers can be in the array part, for which 0
+			// means "before the first item".
+			return t.hashTable.next(IntValue(i))
+		}
 	}
 	if isInt {
 		j, v, ok := t.array.next(i)
